@@ -207,6 +207,21 @@ fn faults(links: &[Link], rng: &mut Rng) -> Vec<Fault> {
                 CatPowerLimit { offset_start: len * 0.4, offset_end: len * 0.9, power_limit: uc::W * 5e6, district_id: None },
             ]
         });
+        add("catenary_unsorted", i, Expect::Reject, &|l| {
+            l[i].cat_power_limits = vec![
+                CatPowerLimit { offset_start: len * 0.6, offset_end: len * 0.9, power_limit: uc::W * 5e6, district_id: None },
+                CatPowerLimit { offset_start: len * 0.1, offset_end: len * 0.4, power_limit: uc::W * 5e6, district_id: None },
+            ]
+        });
+        add("catenary_past_link_end_not_listed_last", i, Expect::Reject, &|l| {
+            l[i].cat_power_limits = vec![
+                CatPowerLimit { offset_start: len * 0.6, offset_end: len * 1.5, power_limit: uc::W * 5e6, district_id: None },
+                CatPowerLimit { offset_start: len * 0.1, offset_end: len * 0.4, power_limit: uc::W * 5e6, district_id: None },
+            ]
+        });
+        add("catenary_before_link_start", i, Expect::Reject, &|l| {
+            l[i].cat_power_limits = vec![CatPowerLimit { offset_start: len * -0.2, offset_end: len * 0.4, power_limit: uc::W * 5e6, district_id: None }]
+        });
         add("catenary_start_gt_end", i, Expect::Reject, &|l| {
             l[i].cat_power_limits = vec![CatPowerLimit { offset_start: len * 0.6, offset_end: len * 0.1, power_limit: uc::W * 5e6, district_id: None }]
         });
@@ -240,6 +255,16 @@ fn load_paths(ctx: &mut Ctx, links: &[Link], dir: &std::path::Path, tag: &str) -
         if std::fs::write(&f, &ys).is_ok() {
             res.push(("from_file_yaml", panics::guard(AssertUnwindSafe(|| Network::from_file(&f).map_err(|e| format!("{e:#}"))))));
             let _ = std::fs::remove_file(&f);
+        }
+        // the same network written in the legacy layout (only when every link uses typed speed sets)
+        if let Some(old) = serde_yaml::to_value(&net).ok().and_then(|v| to_legacy(&v)) {
+            if let Ok(os) = serde_yaml::to_string(&old) {
+                let f = dir.join(format!("{tag}.legacy.yaml"));
+                if std::fs::write(&f, &os).is_ok() {
+                    res.push(("from_file_legacy_yaml", panics::guard(AssertUnwindSafe(|| Network::from_file(&f).map_err(|e| format!("{e:#}"))))));
+                    let _ = std::fs::remove_file(&f);
+                }
+            }
         }
     }
     res
